@@ -6,20 +6,29 @@ package transformations
 import (
 	"strings"
 	"unicode"
+	"unicode/utf8"
 )
 
-// removeWhitespace removes all whitespace characters from input.
 func removeWhitespace(data string) (string, bool, error) {
+	// Bytes are copied as they are: strings.Map would rewrite every invalid UTF-8 byte
+	// into U+FFFD, altering the value without any whitespace being removed.
+	var sb strings.Builder
 	changed := false
-	transformedData := strings.Map(func(r rune) rune {
+	for i := 0; i < len(data); {
+		r, size := utf8.DecodeRuneInString(data[i:])
 		if unicode.IsSpace(r) {
-			// if the character is a space, drop it
-			changed = true
-			return -1
+			if !changed {
+				changed = true
+				sb.Grow(len(data))
+				sb.WriteString(data[:i])
+			}
+		} else if changed {
+			sb.WriteString(data[i : i+size])
 		}
-		// else keep it in the string
-		return r
-	}, data)
-
-	return transformedData, changed, nil
+		i += size
+	}
+	if !changed {
+		return data, false, nil
+	}
+	return sb.String(), true, nil
 }
